@@ -296,19 +296,21 @@ def tile_query(prog: Program) -> List[Instance]:
     me = gi.self_name
     srcp = [p.arg for p in gi.positional_params()][1]
     okg = False
+    org_gi = Origins(gi)
     for lp in (n for n in walk_own(gi.node) if isinstance(n, ast.For)):
         if not isinstance(lp.target, ast.Name):
             continue
         idx = lp.target.id
-        tile_var = None
-        for st in lp.body:
-            if isinstance(st, ast.Assign) and isinstance(st.value, ast.Subscript) and short(st.value.value) == me and short(st.value.slice) == idx:
-                tile_var = short(st.targets[0])
-        for st in lp.body:
+        for st in ast.walk(lp):
             if isinstance(st, ast.Assign) and isinstance(st.targets[0], ast.Subscript) and short(st.targets[0].slice) == idx:
                 for x in ast.walk(st.value):
-                    if isinstance(x, ast.Call) and call_name(x) == "tiles" and isinstance(x.func, ast.Attribute) and short(x.func.value) == srcp:
-                        okg = tile_var is not None and any(isinstance(y, ast.Attribute) and y.attr == "extent" and short(y.value) == tile_var for y in ast.walk(x))
+                    if isinstance(x, ast.Call) and call_name(x) == "tiles" and isinstance(x.func, ast.Attribute) and short(x.func.value) == srcp and x.args:
+                        # the query handed to src.tiles() comes (through whatever temporaries, re-projection or
+                        # padding) from `.extent` of `self[idx]`
+                        cl = org_gi.closure(x.args[0])
+                        own_tile = any(isinstance(y, ast.Subscript) and short(y.value) == me and short(y.slice) == idx for y in cl)
+                        via_extent = any(isinstance(y, ast.Attribute) and y.attr in ("extent", "footprint") for y in cl) or any(isinstance(y, ast.Call) and call_name(y) == "footprint" for y in cl)
+                        okg = okg or (own_tile and via_extent)
     out.append(Instance("R-GUARDSEQ", f"{gi.qual}#per-tile-extent", OK if okg else BAD,
                         "dependencies of tile idx = source tiles overlapping the extent of tile idx" if okg else "general dependency path does not query the source tiling with each destination tile's own extent", gi.where()))
     # _check_linear: A = snap_affine(~src * dst)
